@@ -362,6 +362,8 @@ func genOverlay(p *packages.Package, con *Contracts, L *Loaded) (string, []strin
 	w("func __same[T any](a, b T) bool { return true }\n")
 	w("func __fresh(x any) bool { return true }\n")
 	w("func __disjoint[T any](a, b []T) bool { return true }\n")
+	w("func __samearray[T any](a, b []T) bool { return true }\n")
+	w("func __unchanged() bool { return true }\n")
 	// aliases for types whose names are commonly shadowed by parameter names
 	for _, tn := range []string{"table", "archetype", "column", "filter", "cache", "lock", "node", "graph", "storage"} {
 		if p.Types.Scope().Lookup(tn) != nil {
